@@ -2,6 +2,7 @@
 """Developer helper: run one property's correspondence + oracle on the current /repo tree without build/audit.
 usage: tools/trymod.py <ID> [tier] [-v]"""
 import json
+import os
 import sys
 sys.path.insert(0, '/verif')
 from harness import core, run
@@ -14,9 +15,10 @@ prop = run.load_prop(pid)
 core.repo_on_path()
 st = Stats()
 from harness import shapes
-cases = list(prop.cases(Rng(f"{pid}-0-{tier}"), tier))
+SEED = os.environ.get("VERIF_SEED", "0")
+cases = list(prop.cases(Rng(f"{pid}-{SEED}-{tier}"), tier))
 if getattr(prop, "SHAPES", True):
-    srng = Rng(f"{pid}-0-{tier}-shapes")
+    srng = Rng(f"{pid}-{SEED}-{tier}-shapes")
     cases = [shapes.decorate(c, srng, allow_threads=getattr(prop, 'THREADS', False)) for c in cases]
 run._SCHED.update({'threads_s': 10.0, 'preempt_cases': 36, 'per_kind_max': 4, 'per_kind': {}})
 recs, dis, fails = run.evaluate(prop, cases, st)
